@@ -194,5 +194,14 @@ pub fn schema_cases(si: &gen::SchemaInfo, rng: &mut Rng, thorough: bool, out: &m
         while !t.is_char_boundary(cut) { cut -= 1; }
         introspect_case(&format!("{}:policy{}:truncated", si.name, mode), &t[..cut], 20, rng, out);
         introspect_case(&format!("{}:policy{}:garbage", si.name, mode), &format!("{}}}", t), 20, rng, out);
+        // text that is not JSON only because of what precedes or follows the value: a byte order mark, other invisible
+        // characters, a second value - rejected by the string entry point, so rejected through every reader
+        if mode == 0 {
+            for (label, pre, post) in [("bom", "\u{feff}", ""), ("bom-space", "\u{feff} ", ""), ("nbsp", "\u{a0}", ""), ("zwsp-after", "", "\u{200b}"), ("nul-after", "", "\u{0}"),
+                                       ("two-values", "", " {}"), ("comment", "// dump\n", ""), ("bom-after", "", "\u{feff}"), ("leading-ws", " \n\t\r", " \n")] {
+                let kind = if label == "leading-ws" { "ws" } else { "garbage" };
+                introspect_case(&format!("{}:policy{}:{}-{}", si.name, mode, kind, label), &format!("{}{}{}", pre, t, post), 20, rng, out);
+            }
+        }
     }
 }
